@@ -41,6 +41,7 @@ Put(f, k, v) == [x \in DOMAIN f \cup {k} |-> IF x = k THEN v ELSE f[x]]
 Init0(cfg) ==
     [ cfg      |-> cfg,            \* transport parameters: cfg.cli, cfg.srv, cfg.rem (remembered by the client, if cfg.hasRem)
       hs       |-> FALSE,          \* handshake done: real peer parameters known
+      rej      |-> FALSE,          \* the handshake rejected the client's 0-RTT
       wr       |-> <<>>,           \* <<sid, sender>> -> bytes accepted from the application
       shut     |-> {},             \* flows whose writer asked for shutdown
       ended    |-> {},             \* flows reset / stopped (contract no longer applies)
@@ -84,19 +85,15 @@ Bad(st) == ~st.ok
 -----------------------------------------------------------------------------
 \* handshake completes: real parameters replace remembered ones; a rejected 0-RTT forgets what was sent
 Handshake(st, rejected) ==
-    LET st1 == [st EXCEPT !.hs = TRUE,
+    LET st1 == [st EXCEPT !.hs = TRUE, !.rej = rejected,
                           !.cSndLim = [s \in Sides |-> IF rejected \/ s = "srv" THEN st.cfg[Peer(s)].max_data
                                                         ELSE Max(st.cSndLim[s], st.cfg[Peer(s)].max_data)],
                           !.sLim = [s \in Sides |->
                                       [bi  |-> IF rejected \/ s = "srv" THEN st.cfg[Peer(s)].streams_bidi ELSE Max(st.sLim[s].bi, st.cfg[Peer(s)].streams_bidi),
                                        uni |-> IF rejected \/ s = "srv" THEN st.cfg[Peer(s)].streams_uni ELSE Max(st.sLim[s].uni, st.cfg[Peer(s)].streams_uni)]]]
     IN IF rejected
-       \* Everything sent in 0-RTT is forgotten and will be sent again as new data.  The connection-level
-       \* charge should be forgotten with it (the server never counted those bytes); the code keeps it
-       \* (SendControler::revise_max_data does not reset sent_data), so those bytes are charged twice:
-       \* named deviation ChargeSurvivesRejection, reported as a soft violation of C11.
-       THEN [st1 EXCEPT !.sent = <<>>, !.sndLim = <<>>,
-                        !.soft = IF st.cCharged["cli"] > 0 THEN "ChargeSurvivesRejection" ELSE @]
+       \* everything sent in 0-RTT is forgotten and will be sent, and charged, again as new data
+       THEN [st1 EXCEPT !.sent = <<>>, !.sndLim = <<>>, !.cCharged = [s \in Sides |-> 0]]
        ELSE st1
 
 ZeroRttInit(st) ==   \* what the client may use before the handshake: the remembered parameters
@@ -161,8 +158,17 @@ Emit(st, side, fr) ==
        ELSE IF charged > st.cSndLim[side] THEN Fail(st, "fresh stream data beyond the peer's connection limit (C11)")
        ELSE [st EXCEPT !.sent = Put(@, k, Get(st.sent, k, {}) \cup P), !.cCharged[side] = charged]
 
+\* After a rejected 0-RTT the stream limit may shrink below the number of streams the client already opened;
+\* those streams must stay silent.  The code's filter compares the stream index with the number of OPENED
+\* streams instead of the limit (DataStreams::try_load_data_into_once: stream_allowed), so it never filters:
+\* named deviation SendsBeyondRevisedStreamLimit, reported as a soft violation of C12 (only in that situation).
+EmitSoft(st, side, fr) ==
+    IF st.rej /\ Initiator(fr.sid) = side /\ Index(fr.sid) >= st.sLim[side][DirOf(fr.sid)]
+    THEN Emit([st EXCEPT !.soft = "SendsBeyondRevisedStreamLimit",
+                         !.sLim[side][DirOf(fr.sid)] = Index(fr.sid) + 1], side, fr)
+    ELSE Emit(st, side, fr)
 RECURSIVE EmitAll(_, _, _)
-EmitAll(st, side, frs) == IF frs = <<>> \/ Bad(st) THEN st ELSE EmitAll(Emit(st, side, Head(frs)), side, Tail(frs))
+EmitAll(st, side, frs) == IF frs = <<>> \/ Bad(st) THEN st ELSE EmitAll(EmitSoft(st, side, Head(frs)), side, Tail(frs))
 
 Pack(st, side, frs, connAvail) ==
     LET st1 == EmitAll(st, side, frs) IN
@@ -195,44 +201,91 @@ Touch(st, side, sid) ==
     IF Initiator(sid) = side THEN st
     ELSE LET d == DirOf(sid) IN [st EXCEPT !.implicit[side][d] = Max(@, Index(sid) + 1)]
 
+\* a frame for a stream the receiver itself is to initiate but has not created yet (RFC: STREAM_STATE_ERROR;
+\* C12 does not list it, the code ignores such frames: not judged)
+NotYetCreated(st, to, sid) == Initiator(sid) = to /\ Index(sid) >= st.opened[to][DirOf(sid)]
+
+\* errors a frame must be answered with because of its stream id alone (C12)
+IdErrors(st, from, sid, kind) ==
+    LET to == Peer(from) IN
+    (IF kind \in {"stream", "reset"} /\ ~MaySend(from, sid) THEN {"err:StreamState"} ELSE {})
+    \cup (IF kind \in {"stop", "max_stream_data"} /\ ~MayRecv(from, sid) THEN {"err:StreamState"} ELSE {})
+    \cup (IF Initiator(sid) = from /\ Index(sid) >= st.sAdv[to][DirOf(sid)] THEN {"err:StreamLimit"} ELSE {})
+
+\* The code admits the stream whose index EQUALS the advertised count (RemoteStreamIds::try_accept_sid tests
+\* `index > max`; a unit test of the repository asserts that behaviour): named deviation StreamLimitOffByOne.
+\* The model follows the code for exactly that index and reports it as a soft violation of C12.
+AtLimit(st, from, sid) == Initiator(sid) = from /\ Index(sid) = st.sAdv[Peer(from)][DirOf(sid)]
+Soften(st, from, sid, res) ==
+    IF AtLimit(st, from, sid) /\ res # "err:StreamLimit"
+    THEN [st EXCEPT !.soft = "StreamLimitOffByOne", !.sAdv[Peer(from)][DirOf(sid)] = @ + 1]
+    ELSE st
+
+Judge(st, to, E, res, stOk) ==
+    IF E # {} THEN (IF res \in E THEN [st EXCEPT !.dead = @ \cup {to}]
+                    ELSE Fail(st, IF "err:FlowControl" \in E THEN "data beyond an advertised limit was not answered with FLOW_CONTROL_ERROR (C11)"
+                                  ELSE IF "err:StreamLimit" \in E THEN "use of a stream beyond the advertised count was not answered with STREAM_LIMIT_ERROR (C12)"
+                                  ELSE IF "err:StreamState" \in E THEN "frame on a stream of the wrong direction was not answered with STREAM_STATE_ERROR (C12)"
+                                  ELSE "contradicted final size was not answered with FINAL_SIZE_ERROR (C12)"))
+    ELSE IF res # "ok" THEN Fail(st, "legitimate frame rejected") ELSE stOk
+
 \* a frame of `from` handed to the peer, with the result the peer's code returned
+RECURSIVE Deliver(_, _, _, _, _)
 Deliver(st, from, fr, res, fresh) ==
     LET to == Peer(from) IN
+    IF "sid" \in DOMAIN fr /\ AtLimit(st, from, fr.sid) /\ res # "err:StreamLimit" /\ to \notin st.dead
+    THEN Deliver(Soften(st, from, fr.sid, res), from, fr, res, fresh) ELSE
     IF to \in st.dead THEN st
     ELSE IF fr.t = "stream" THEN
         LET k == Key(fr.sid, from)
             end == fr.off + fr.len
             hi0 == Get(st.hi, k, 0)
-            hi1 == Max(hi0, end)
+            hi1 == IF fr.len > 0 THEN Max(hi0, end) ELSE hi0      \* an empty frame delivers no data
             finKnown == k \in DOMAIN st.fin
-            overStream == end > RcvLimOf(st, k)
-            overConn == st.cRcvd[to] + (hi1 - hi0) > st.cRcvLim[to]
+            idE == IdErrors(st, from, fr.sid, "stream")
+            flowE == IF end > RcvLimOf(st, k) \/ st.cRcvd[to] + (hi1 - hi0) > st.cRcvLim[to] THEN {"err:FlowControl"} ELSE {}
+            finE == IF (finKnown /\ (end > st.fin[k] \/ (fr.fin /\ end # st.fin[k]))) \/ (fr.fin /\ end < hi0)
+                    THEN {"err:FinalSize"} ELSE {}
             st1 == Touch(st, to, fr.sid)
-        IN IF k \in st.rdone \/ k \in st.ended
-           THEN IF res = "ok" THEN st1 ELSE [st1 EXCEPT !.dead = @ \cup {to}]    \* frames for finished streams: not judged
-           ELSE IF overStream \/ overConn
-           THEN IF res = "err:FlowControl" THEN [st1 EXCEPT !.dead = @ \cup {to}]
-                ELSE Fail(st1, "data beyond an advertised limit was not answered with FLOW_CONTROL_ERROR (C11)")
+            arr == Get(st.arrived, k, {}) \cup (fr.off .. (end - 1))
+            fin1 == IF fr.fin THEN Put(st.fin, k, end) ELSE st.fin
+            complete == k \in DOMAIN fin1 /\ (0 .. (fin1[k] - 1)) \subseteq arr
+            stOk == [st1 EXCEPT !.arrived = Put(@, k, arr), !.hi = Put(@, k, hi1), !.fin = fin1,
+                                !.cRcvd[to] = @ + (hi1 - hi0),
+                                !.rdone = IF complete THEN @ \cup {k} ELSE @]
+        IN IF idE # {} THEN Judge(st, to, idE, res, st)
+           ELSE IF k \in st.rdone \/ k \in st.ended \/ NotYetCreated(st, to, fr.sid)
+           \* finished / voided / not yet created streams: not judged; what the code charged is taken as is
+           THEN IF res = "ok" THEN [st1 EXCEPT !.cRcvd[to] = @ + fresh] ELSE [st1 EXCEPT !.dead = @ \cup {to}]
+           ELSE IF flowE \cup finE # {} THEN Judge(st1, to, flowE \cup finE, res, st1)
            ELSE IF res # "ok" THEN Fail(st1, "legitimate STREAM frame rejected")
            ELSE IF fresh # hi1 - hi0 THEN Fail(st1, "newly covered data reported for the arrival is not the growth of the highest offset (C08/C11)")
-           ELSE LET arr == Get(st.arrived, k, {}) \cup (fr.off .. (end - 1))
-                    fin1 == IF fr.fin THEN Put(st.fin, k, end) ELSE st.fin
-                    complete == k \in DOMAIN fin1 /\ (0 .. (fin1[k] - 1)) \subseteq arr
-                IN [st1 EXCEPT !.arrived = Put(@, k, arr), !.hi = Put(@, k, hi1), !.fin = fin1,
-                               !.cRcvd[to] = @ + (hi1 - hi0),
-                               !.rdone = IF complete THEN @ \cup {k} ELSE @]
+           ELSE stOk
     ELSE IF fr.t = "max_stream_data" THEN
-        LET k == Key(fr.sid, to) IN [st EXCEPT !.sndLim = Put(@, k, Max(Get(st.sndLim, k, 0), fr.v))]
+        LET k == Key(fr.sid, to)
+            idE == IdErrors(st, from, fr.sid, "max_stream_data")
+        IN IF idE # {} THEN Judge(st, to, idE, res, st)
+           ELSE [Touch(st, to, fr.sid) EXCEPT !.sndLim = Put(@, k, Max(Get(st.sndLim, k, 0), fr.v))]
     ELSE IF fr.t = "max_data" THEN [st EXCEPT !.cSndLim[to] = Max(@, fr.v)]
     ELSE IF fr.t = "max_streams" THEN [st EXCEPT !.sLim[to][fr.dir] = Max(@, fr.v)]
     ELSE IF fr.t = "reset" THEN
         LET k == Key(fr.sid, from)
             hi0 == Get(st.hi, k, 0)
+            finKnown == k \in DOMAIN st.fin
+            idE == IdErrors(st, from, fr.sid, "reset")
+            finE == IF fr.final < hi0 \/ (finKnown /\ fr.final # st.fin[k]) THEN {"err:FinalSize"} ELSE {}
+            flowE == IF fr.final > RcvLimOf(st, k) \/ (fr.final > hi0 /\ st.cRcvd[to] + (fr.final - hi0) > st.cRcvLim[to])
+                     THEN {"err:FlowControl"} ELSE {}
             st1 == Touch(st, to, fr.sid)
-        IN IF res = "ok" /\ k \notin st.rdone
-           THEN [st1 EXCEPT !.rdone = @ \cup {k}, !.ended = @ \cup {k}, !.cRcvd[to] = @ + (IF fr.final > hi0 THEN fr.final - hi0 ELSE 0)]
-           ELSE IF res # "ok" THEN [st1 EXCEPT !.dead = @ \cup {to}] ELSE st1
-    ELSE IF fr.t = "stop" THEN Touch(st, to, fr.sid)
+            stOk == [st1 EXCEPT !.rdone = @ \cup {k}, !.ended = @ \cup {k},
+                                !.cRcvd[to] = @ + (IF fr.final > hi0 THEN fr.final - hi0 ELSE 0)]
+        IN IF idE # {} THEN Judge(st, to, idE, res, st)
+           ELSE IF k \in st.rdone \/ k \in st.ended \/ NotYetCreated(st, to, fr.sid)
+           THEN (IF res = "ok" THEN [st1 EXCEPT !.cRcvd[to] = @ + fresh] ELSE [st1 EXCEPT !.dead = @ \cup {to}])
+           ELSE Judge(st1, to, finE \cup flowE, res, stOk)
+    ELSE IF fr.t = "stop" THEN
+        LET idE == IdErrors(st, from, fr.sid, "stop") IN
+        IF idE # {} THEN Judge(st, to, idE, res, st) ELSE Touch(st, to, fr.sid)
     ELSE st
 
 \* the application reads up to k bytes of the flow towards `side`
@@ -241,7 +294,8 @@ Read(st, side, sid, n, eos, res, dataOk) ==
         nr == Get(st.nread, k, 0)
         arr == Get(st.arrived, k, {})
         finKnown == k \in DOMAIN st.fin
-    IN IF res = "ok" THEN
+    IN IF side \in st.dead \/ k \in st.ended THEN st      \* the connection failed here / the stream was reset or stopped
+       ELSE IF res = "ok" THEN
           IF ~dataOk THEN Fail(st, "bytes read differ from the bytes written (C01)")
           ELSE IF ~((nr .. (nr + n - 1)) \subseteq arr) THEN Fail(st, "read returned bytes that have not arrived (C01)")
           ELSE IF eos /\ ~(finKnown /\ nr = st.fin[k]) THEN Fail(st, "end of stream reported before the last byte (C01)")
